@@ -9,3 +9,42 @@ package j5schema
 //@ func (FieldSchema).Mutable
 //@   ensures result ==> typeis(recv, *ObjectField) || typeis(recv, *OneofField) || typeis(recv, *AnyField) || typeis(recv, *ArrayField) || typeis(recv, *MapField)
 //@   ensures !result ==> typeis(recv, *ScalarSchema) || typeis(recv, *EnumField)
+
+// A schema lookup reports an error or hands out a usable schema: never a nil interface and never a
+// typed nil pointer (C18, C06). The cache entry of a failed build must not satisfy a later lookup.
+//@ spec func rootOK(r RootSchema) bool = r != nil
+//@   | && (typeis(r, *ObjectSchema) ==> as(*ObjectSchema, r) != nil)
+//@   | && (typeis(r, *OneofSchema) ==> as(*OneofSchema, r) != nil)
+//@   | && (typeis(r, *EnumSchema) ==> as(*EnumSchema, r) != nil)
+//@ spec func refsOK(p *Package) bool = forall k string {p.Schemas[k]} :: has(p.Schemas, k) ==> p.Schemas[k] != nil && (p.Schemas[k].To == nil || rootOK(p.Schemas[k].To))
+// every package known to a cache is well formed: its schema map exists and holds no half-built entry
+//@ spec func pkgOK(p *Package) bool = p != nil && p.Schemas != nil && refsOK(p)
+//@ spec func cacheOK(c *SchemaCache) bool = forall k string {c.packages[k]} :: has(c.packages, k) ==> c.packages[k] != nil && c.packages[k].Schemas != nil
+//@ spec func allPkgsOK() bool = (forall p *Package {p.Schemas} :: p != nil && p.Schemas != nil ==> refsOK(p))
+//@   | && (forall c *SchemaCache {c.packages} :: c != nil && c.packages != nil ==> cacheOK(c))
+//@ type *SchemaCache invariant sc: sc != nil && sc.packages != nil
+
+// the schema builders (schema_from_proto.go) recurse through the cache; their effect on it is assumed
+// here: they only add entries that are unlinked or linked to a built schema
+//@ func (*Package).buildObjectSchema
+//@   opt assumed recursive schema builder: keeps every package map well formed, returns a schema or an error
+//@   requires allPkgsOK()
+//@   ensures allPkgsOK()
+//@   ensures result1 == nil ==> result0 != nil
+//@ func (*Package).buildOneofSchema
+//@   opt assumed recursive schema builder: keeps every package map well formed, returns a schema or an error
+//@   requires allPkgsOK()
+//@   ensures allPkgsOK()
+//@   ensures result1 == nil ==> result0 != nil
+//@ func (*SchemaCache).referencePackage
+//@   requires allPkgsOK()
+//@   ensures allPkgsOK()
+//@   ensures result != nil && result.Schemas != nil
+//@ func (*SchemaCache).refTo
+//@   requires allPkgsOK()
+//@   ensures allPkgsOK()
+//@   ensures result0 != nil
+//@ func (*SchemaCache).Schema
+//@   requires src != nil && allPkgsOK()
+//@   ensures wf: allPkgsOK()
+//@   ensures usable: result1 == nil ==> rootOK(result0)
